@@ -10,6 +10,9 @@
 #include <string.h>
 #include <unistd.h>
 #include <sys/types.h>
+#include <sys/uio.h>
+#include <sys/resource.h>
+#include <signal.h>
 
 int iof_armed = 0, iof_kind = -1, iof_fault = 0, iof_hit = 0, iof_min_fd = 3, iof_inited = 0;
 long iof_k = 0, iof_count[4] = {0, 0, 0, 0};
@@ -75,4 +78,55 @@ off_t __wrap_lseek(int fd, off_t off, int whence) {
 int __wrap_ftruncate(int fd, off_t len) {
     if(iof_due(3, fd)) { errno = EIO; return -1; }
     return __real_ftruncate(fd, len);
+}
+
+/* The other system calls that move file data.  The library does not use them today; they are wrapped so that a fault plan keeps
+ * reaching the transfer if it ever does (positioned / vectored / in-kernel copies count as reads or writes of the same plan). */
+ssize_t __real_pread(int fd, void *buf, size_t n, off_t off);
+ssize_t __real_pread64(int fd, void *buf, size_t n, off_t off);
+ssize_t __real_pwrite(int fd, const void *buf, size_t n, off_t off);
+ssize_t __real_pwrite64(int fd, const void *buf, size_t n, off_t off);
+ssize_t __real_readv(int fd, const struct iovec *iov, int cnt);
+ssize_t __real_writev(int fd, const struct iovec *iov, int cnt);
+ssize_t __real_copy_file_range(int in, off_t *oin, int out, off_t *oout, size_t n, unsigned flags);
+ssize_t __real_sendfile(int out, int in, off_t *off, size_t n);
+ssize_t __real_sendfile64(int out, int in, off_t *off, size_t n);
+off_t __real_lseek64(int fd, off_t off, int whence);
+int __real_ftruncate64(int fd, off_t len);
+static size_t iof_short(size_t n) { return iof_cur_fault == 3 ? n / 2 : iof_cur_fault == 4 ? (n ? 1 : 0) : 0; }
+#define IOF_RD(call_short, call_full) if(iof_due(0, fd)) { if(iof_cur_fault <= 2) { errno = iof_errno(); return -1; } size_t m = iof_short(n); if(m == 0) return 0; return call_short; } return call_full
+#define IOF_WR(fdx, call_short, call_full) if(iof_due(1, fdx)) { if(iof_cur_fault <= 2) { errno = iof_errno(); return -1; } size_t m = iof_short(n); if(m == 0) return 0; return call_short; } return call_full
+ssize_t __wrap_pread(int fd, void *buf, size_t n, off_t off) { IOF_RD(__real_pread(fd, buf, m, off), __real_pread(fd, buf, n, off)); }
+ssize_t __wrap_pread64(int fd, void *buf, size_t n, off_t off) { IOF_RD(__real_pread64(fd, buf, m, off), __real_pread64(fd, buf, n, off)); }
+ssize_t __wrap_pwrite(int fd, const void *buf, size_t n, off_t off) { IOF_WR(fd, __real_pwrite(fd, buf, m, off), __real_pwrite(fd, buf, n, off)); }
+ssize_t __wrap_pwrite64(int fd, const void *buf, size_t n, off_t off) { IOF_WR(fd, __real_pwrite64(fd, buf, m, off), __real_pwrite64(fd, buf, n, off)); }
+ssize_t __wrap_readv(int fd, const struct iovec *iov, int cnt) {
+    size_t n = cnt > 0 ? iov[0].iov_len : 0;
+    if(iof_due(0, fd)) { if(iof_cur_fault <= 2) { errno = iof_errno(); return -1; } size_t m = iof_short(n); if(m == 0) return 0; struct iovec one = { iov[0].iov_base, m }; return __real_readv(fd, &one, 1); }
+    return __real_readv(fd, iov, cnt);
+}
+ssize_t __wrap_writev(int fd, const struct iovec *iov, int cnt) {
+    size_t n = cnt > 0 ? iov[0].iov_len : 0;
+    if(iof_due(1, fd)) { if(iof_cur_fault <= 2) { errno = iof_errno(); return -1; } size_t m = iof_short(n); if(m == 0) return 0; struct iovec one = { iov[0].iov_base, m }; return __real_writev(fd, &one, 1); }
+    return __real_writev(fd, iov, cnt);
+}
+ssize_t __wrap_copy_file_range(int in, off_t *oin, int out, off_t *oout, size_t n, unsigned flags) { IOF_WR(out, __real_copy_file_range(in, oin, out, oout, m, flags), __real_copy_file_range(in, oin, out, oout, n, flags)); }
+ssize_t __wrap_sendfile(int out, int in, off_t *off, size_t n) { IOF_WR(out, __real_sendfile(out, in, off, m), __real_sendfile(out, in, off, n)); }
+ssize_t __wrap_sendfile64(int out, int in, off_t *off, size_t n) { IOF_WR(out, __real_sendfile64(out, in, off, m), __real_sendfile64(out, in, off, n)); }
+off_t __wrap_lseek64(int fd, off_t off, int whence) { if(iof_due(2, fd)) { errno = EIO; return (off_t)-1; } return __real_lseek64(fd, off, whence); }
+int __wrap_ftruncate64(int fd, off_t len) { if(iof_due(3, fd)) { errno = EIO; return -1; } return __real_ftruncate64(fd, len); }
+
+/* A second, syscall-independent fault mechanism: a file-size limit (RLIMIT_FSIZE, SIGXFSZ ignored).  Whatever call extends a file
+ * past the limit - write, pwrite, writev, copy_file_range, sendfile, ftruncate - is cut short at the limit and then fails with EFBIG,
+ * exactly what a full disk or a quota does.  iof_fsize_limit(-1) removes the limit again.  In the tools: VERIF_FSIZE_LIMIT=<bytes>. */
+void iof_fsize_limit(long bytes) {
+    struct rlimit rl;
+    signal(SIGXFSZ, SIG_IGN);
+    if(getrlimit(RLIMIT_FSIZE, &rl) != 0) return;
+    rl.rlim_cur = bytes < 0 ? rl.rlim_max : (rlim_t)bytes;
+    setrlimit(RLIMIT_FSIZE, &rl);
+}
+__attribute__((constructor)) static void iof_env_fsize(void) {
+    const char *p = getenv("VERIF_FSIZE_LIMIT");
+    if(p && *p) iof_fsize_limit(atol(p));
 }
